@@ -23,22 +23,22 @@ CLAIMED = {
  "C10": ("spec/Store.tla is model-checked exhaustively over all streams up to the bound (3 ids x 2 versions x parents), all batch sizes, one and two ingesting runs: UniqueEid, NoCrash, IngestExact, LinksKept; the same streams and seeded longer ones are run through the real SQLDataHolder and every logged execution is validated by TLC (conformance to Store.tla incl. the inferred flush/filter/retry steps; IngestExactP on the observed tables).",
          "sqlite through SQLAlchemy; timestamps on a minute grid", "4/C09-C15",
          "TLC model checking of spec/Store.tla + TLC trace validation of logged executions"),
- "C11": ("Action properties CleanInconsistentExact / CleanWindowExact / CleanNamesExact on spec/Store.tla (declarative clause vs the association-table implementation) for every interleaving of ingestion; executions of the real cleaning on combinations of nine trace templates x buffers x batch sizes validated by TLC, plus the frame condition through the pipeline (twin scenario without the removed traces, PV sequences compared by TLC).",
+ "C11": ("Action properties CleanInconsistentExact / CleanWindowExact / CleanNamesExact on spec/Store.tla (declarative clause vs the association-table implementation) for every interleaving of ingestion; executions of the real cleaning on combinations of twelve (three of them with two anomalies in one trace) trace templates x buffers x batch sizes validated by TLC, plus the frame condition through the pipeline (twin scenario without the removed traces, PV sequences compared by TLC).",
          "no cross-trace parents; one root per trace", "4/C09-C15",
          "TLC action properties on spec/Store.tla + TLC trace validation of logged cleaning steps"),
- "C12": ("StreamExact on spec/Store.tla; the nested generators of the real stream_data are consumed as the pipeline does and the logged sequence of (name, trace, spans, children) is validated by TLC (once, whole, partition of the filtered store, reaches the PV output).",
+ "C12": ("StreamExact on spec/Store.tla; the nested generators of the real stream_data are consumed as the pipeline does and the logged sequence of (name, trace, spans, children) is validated by TLC (once, whole, partition of the filtered store, reaches the PV output). One data-holder object used in phases (ingest, stream, ingest more, stream again) is covered by the actions StreamDirect / Reenter.",
          "one root per trace", "4/C09-C15",
          "TLC model checking of spec/Store.tla + TLC trace validation of logged streams"),
- "C15": ("Run histories as behaviours of spec/Store.tla (process boundary = in-memory state reset, tables kept): NoCrash, SameAnswer, UniqueExact for all histories up to the bound; histories of separate processes on one sqlite file with flags ingest/ug/save-events executed on the real code and validated by TLC (every run completes, same PV sequences, same selected shape classes).",
+ "C15": ("Run histories as behaviours of spec/Store.tla (process boundary = in-memory state reset, tables kept): NoCrash, SameAnswer, UniqueExact for all histories up to the bound; histories of separate processes on one sqlite file with flags ingest/ug/save-events executed on the real code and validated by TLC (every run completes, same PV sequences, same selected shape classes). All runs without the unique-graph filter must output the same set of traces (C15sameset), including with a time buffer.",
          "most runs are forked processes calling otel_to_pv; a small family of histories goes through python -m tel2puml otel2pv [-ni] [-ug] -se", "4/C15",
          "TLC model checking of run histories on spec/Store.tla + TLC validation of logged multi-process histories"),
  "C08": ("spec/Sequencer.tla states the documented sequencing rules twice (closed form and stack machine; TLC checks they agree and the structural invariants on all small trees); TLC enumerates all span trees up to the bound x modes x maps, the real sequencer runs on each, and TLC compares observed links with Expected and evaluates the invariants; seeded larger trees likewise.",
          "documented rules as read in Sequencer.tla; touching windows and rename-of-renamed kept out of inputs", "4/C08",
          "TLC enumeration of span trees + TLC comparison of observed PV links with spec/Sequencer.tla"),
- "C16": ("spec/PvTime.tla: exact calendar arithmetic on limb-encoded integers; TLC checks its self-consistency on the boundary grid and validates every observed (input, output) pair of the two converters and the round trip (boundary grid exhaustively, seeded instants).",
+ "C16": ("spec/PvTime.tla: exact calendar arithmetic on limb-encoded integers; TLC checks its self-consistency on the boundary grid and validates every observed (input, output) pair of the two converters and the round trip (boundary grid exhaustively, seeded instants). Nanosecond-precision instants must come out as the truncated or the next microsecond and ordered pairs of them must never be reversed.",
          "TLC as exact-arithmetic oracle of a transcribed pure function", "4/C16",
          "TLC evaluation of spec/PvTime.tla on observed conversion pairs"),
- "C04": ("spec/ModelCache.tla (model = out/in multiset-sets, staleness flag, cached tree, file) is model-checked for RoundTrip, UnionIsOrderFree and CacheCoherent; its behaviours are replayed on real Event objects / save / load; end to end, all ordered splits of job sets into chunks crossing -om/-im are learned and compared with the one-shot diagram by TLC language equality.",
+ "C04": ("spec/ModelCache.tla (model = out/in multiset-sets, staleness flag, cached tree, file) is model-checked for RoundTrip, UnionIsOrderFree and CacheCoherent; its behaviours are replayed on real Event objects / save / load; end to end, all ordered splits of job sets into chunks crossing -om/-im are learned and compared with the one-shot diagram by TLC language equality. The documented multi-workflow procedure is also run through the command line (otel2puml -om, then -im with every saved model) and compared with one run on all the data.",
          "JobDef.tla semantics; loop bound 2", "4/C04",
          "TLC model checking of spec/ModelCache.tla + behaviours replayed into Event/save/load + TLC language equality"),
  "C06": ("spec/Gates.tla enumerates every gate tree up to the bound and its outcome family Out(tree); the real calculate_logic_gates runs on each family; TLC evaluates Out(tree) <= Out(inferred) for all and equality on the exactness sub-class.",
